@@ -291,6 +291,10 @@ pub enum Op {
     /// Declare variable with var (hoisted): env.define_var(name, r[init])
     DeclareVarHoisted { name: ConstantIndex, init: Register },
 
+    /// Create the binding of a let/const declaration when its scope is entered: it exists but
+    /// is uninitialised (temporal dead zone) until the declaration itself is evaluated
+    DeclareLexical { name: ConstantIndex },
+
     /// Get global variable (optimized path for globals)
     GetGlobal { dst: Register, name: ConstantIndex },
 
